@@ -159,23 +159,33 @@ theorem C13_light_point_commutes (ts : Transform Rat) (rx ry k m : Rat) (p : Rat
   simp only [act, Transform.fromTranslate, Transform.one, Transform.zero, Flt.rat_ofNat, Flt.rat_sub]
   refine Prod.ext ?_ ?_ <;> simp <;> ring
 
-/-- Full statement for spot lights — the function itself commutes with translation. -/
-def C13_light_spot_commutes_stmt : Prop :=
-  ∀ (ts : Transform Rat) (rx ry k m : Rat) (p : Rat × Rat),
+/-- Spot lights (position and target): the function commutes with shifting `ts` and the region — since
+    fix 0aa4396, which made the y coordinate relative to the top of the region. -/
+theorem C13_light_spot_commutes (ts : Transform Rat) (rx ry k m : Rat) (p : Rat × Rat) :
     transformLightXY .spot ((Transform.fromTranslate k m).preConcat ts) (rx + k) (ry + m) p
-      = transformLightXY .spot ts rx ry p
+      = transformLightXY .spot ts rx ry p := by
+  unfold transformLightXY Transform.preConcat
+  rw [mapPoint_eq, mapPoint_eq, concat_eq, act_mulT]
+  simp only [act, Transform.fromTranslate, Transform.one, Transform.zero, Flt.rat_ofNat, Flt.rat_sub]
+  refine Prod.ext ?_ ?_ <;> simp <;> ring
 
-/-- It is false: `light.y = point.y − region.x()` uses the x origin for y (latent slip in
-    `transform_light_source`): shifting by (1, 0) changes y by −1. -/
-theorem C13_light_spot_commutes_false : ¬ C13_light_spot_commutes_stmt := by
+/-- the statement for the code before the fix -/
+def C13_light_spot_commutes_old_stmt : Prop :=
+  ∀ (ts : Transform Rat) (rx ry k m : Rat) (p : Rat × Rat),
+    transformLightXYOld .spot ((Transform.fromTranslate k m).preConcat ts) (rx + k) (ry + m) p
+      = transformLightXYOld .spot ts rx ry p
+
+/-- It was false: `light.y = point.y − region.x()` used the x origin for y: shifting by (1, 0) changed y by −1
+    (visible whenever the filter region does not start at the layer's origin, e.g. a clamped region). -/
+theorem C13_light_spot_commutes_old_false : ¬ C13_light_spot_commutes_old_stmt := by
   intro h
   have := h Transform.identity 0 0 1 0 (0, 0)
   revert this
   decide +kernel
 
-/-- …but it is *latent*: in layer-local coordinates an unclamped single-filter region has origin
-    (0, 0), where both kinds reduce to `ts · p`; together with `C13_local_invariant` the light handed
-    to the lighting kernels does not depend on the root translation. -/
+/-- in layer-local coordinates an unclamped single-filter region has origin (0, 0), where both kinds reduce to
+    `ts · p`; together with `C13_local_invariant` the light handed to the lighting kernels does not depend on the
+    root translation (which is why the slip above stayed latent for ordinary regions). -/
 theorem C13_light_local (k : LightKind) (ts : Transform Rat) (p : Rat × Rat) :
     transformLightXY k ts 0 0 p = ts.mapPoint p := by
   cases k <;> simp [transformLightXY]
